@@ -152,7 +152,11 @@ func (e *Engine) acquire(st *State, fr *Frame, p Val, mode string, pos token.Pos
 			hl.mon = m
 			hl.base = base
 			hl.stt = stt
-			e.havocGuarded(st, m, base, stt)
+			if !(st.unit.Contract != nil && st.unit.Contract.Seq) {
+				e.havocGuarded(st, m, base, stt)
+			} else {
+				e.assumptions["sequential reading (clause seq): guarded state is not havocked at lock acquisition; the result quantifies over histories of calls, not over interleavings"] = true
+			}
 			env := e.monitorEnv(st, m, base, stt)
 			for _, inv := range m.Invs {
 				st.assume(env.evalBool(inv.Expr))
